@@ -102,8 +102,24 @@ def run(pid, mode, tier):
     def one(job):
         b, h, wit = job
         unwind = apigen.UNWIND.get(b["src"], 20)
-        return cbmcrun.run_cbmc([b["gbw"] if wit else b["gb"]], function=h["fn"], unwind=unwind, witness=wit, timeout=600 if tier == "quick" else 3600,
-                                want_trace=not wit)
+        to = 900 if tier == "quick" else 3600
+        if h["kind"] == "domain-reject" and not wit and unwind > 4:
+            # a rejected call never enters the internal's loops: try a small bound first; the unwinding
+            # assertions tell us if that was not enough (then the full bound is used)
+            r = cbmcrun.run_cbmc([b["gb"]], function=h["fn"], unwind=4, timeout=to, want_trace=False, extra=["--slice-formula"])
+            if r.status == "SUCCESS":
+                return r
+            if r.status == "FAILED":
+                r2 = cbmcrun.run_cbmc([b["gb"]], function=h["fn"], unwind=4, timeout=to, want_trace=True)
+                if r2.status == "FAILED":
+                    return r2
+        r = cbmcrun.run_cbmc([b["gbw"] if wit else b["gb"]], function=h["fn"], unwind=unwind, witness=wit, timeout=to, want_trace=False, extra=["--slice-formula"])
+        if r.status == "FAILED" and not wit:
+            r2 = cbmcrun.run_cbmc([b["gb"]], function=h["fn"], unwind=unwind, timeout=to, want_trace=True)   # unsliced: full trace for the replay
+            if r2.status == "FAILED":
+                r2.solver_s += r.solver_s
+                r = r2
+        return r
 
     t0 = time.time()
     res = run_jobs(jobs, one)
@@ -132,11 +148,20 @@ def run(pid, mode, tier):
         if r.status != "FAILED":
             vd.inconcl("%s: cbmc %s %s" % (h["fn"], r.status, r.msg[:300]))
             continue
-        # counterexample(s): replay natively once per harness (first failing property's draws)
-        pn, desc, nd, extras = r.failed[0]
-        ok, out = native_replay(b, h["fn"], nd, wd)
-        ev.add("traces_validated_against_impl", 1)
-        descs = sorted(set(d for _, d, _, _ in r.failed))
+        # counterexample(s): replay natively (tagged assertions first) until one reproduces
+        cands = sorted(r.failed, key=lambda x: (not x[1].startswith(pid), x[1]))
+        tried, ok, out, nd = set(), None, "", []
+        for pn, desc, nd_, extras in cands:
+            k = tuple(nd_)
+            if k in tried:
+                continue
+            tried.add(k)
+            ok, out = native_replay(b, h["fn"], nd_, wd)
+            nd = nd_
+            ev.add("traces_validated_against_impl", 1)
+            if ok or len(tried) >= 4:
+                break
+        descs = sorted(set(d for _, d, _, _ in r.failed), key=lambda d: (not d.startswith(pid), d))
         if ok:
             key = descs[0] if descs[0].startswith(pid) else "%s:%s:%s" % (pid, h["entry"], descs[0])
             rp = save_replay(pid, key, {"harness": h["fn"], "unit": b["src"], "failed": descs, "nd_values": nd, "mode": mode,
